@@ -91,6 +91,7 @@ def _verify_worker(args):
                      'solver': sorted(d['solver']), 'line': d['line']}
                 if d['cex'] is not None:
                     ob = d['cex']
+                    o['candidate_only'] = d['result'] != 'refuted'
                     try:
                         dec = verify.Decoder(ob.model, ob.interp)
                         o['inputs'] = dec.inputs(ob)
